@@ -103,8 +103,37 @@ class Tree:
                 self.add(parent, "link", p, name, target=0)
                 continue
             t = rng.choice(cands) if kind != "ancestor" else self.entries[parent - 1]
-            os.symlink(os.path.relpath(t["path"], os.path.dirname(p)) if rng.random() < 0.5 else t["path"], p)
+            how = rng.random()
+            if how < 0.4:
+                text = os.path.relpath(t["path"], os.path.dirname(p))
+            elif how < 0.75 or t["path"].count("/") < 3:
+                text = t["path"]
+            else:
+                # an absolute target that is not in canonical form: it names the same entry through `dir/../dir`
+                up = os.path.dirname(t["path"])
+                text = os.path.join(up, "..", os.path.basename(up), os.path.basename(t["path"]))
+            os.symlink(text, p)
             self.add(parent, "link", p, name, target=t["id"])
+        if self.mounted:
+            # links that cross the mount point in both directions (what --one-fs has to stop when links are followed)
+            md = self.byp[self.mounted[0]]
+            inside = os.path.join(self.mounted[0], "in.txt")
+            if inside not in self.byp:
+                with open(inside, "wb") as f:
+                    f.write(b"m" * 50)
+                self.add(md, "file", inside, "in.txt", size=50)
+            outer = [d for d in dirs if self.entries[d - 1]["dev"] == 1 and md not in self.ancestors(d) and d != md]
+            for nm, tgt in (("xdir", md), ("xfile.txt", self.byp[inside])):
+                d = rng.choice(outer)
+                lp = os.path.join(self.entries[d - 1]["path"], nm)
+                if lp not in self.byp:
+                    os.symlink(self.entries[tgt - 1]["path"], lp)
+                    self.add(d, "link", lp, nm, target=tgt)
+            back = rng.choice(outer)
+            lp = os.path.join(self.mounted[0], "back")
+            if lp not in self.byp:
+                os.symlink(self.entries[back - 1]["path"], lp)
+                self.add(md, "link", lp, "back", target=back)
         # ignore files
         self.rules = {}
         for _ in range(rng.randint(0, 3)):
@@ -225,7 +254,7 @@ def gen_opts(rng, tree):
 
 
 def gen_opts0(rng, tree):
-    o = {"depth": rng.choice([None, None, 0, 1, 2, 3]), "hidden": rng.random() < 0.4, "noIgnore": rng.random() < 0.3, "follow": rng.random() < 0.3,
+    o = {"depth": rng.choice([None, None, 0, 1, 2, 3]), "hidden": rng.random() < 0.4, "noIgnore": rng.random() < 0.3, "follow": rng.random() < (0.6 if tree.mounted else 0.3),
          "report": rng.random() < 0.3, "oneFs": bool(tree.mounted) and rng.random() < 0.7, "min": rng.choice([None, None, 0, 2]), "max": rng.choice([None, None, 100]),
          "names": [], "paths": [], "excludes": [], "regex": False, "ci": rng.random() < 0.25}
     if o["follow"] and o["depth"] is not None:
